@@ -241,6 +241,10 @@ def symbolic_param(ip: Interp, name: str, tstr: str) -> SV:
     st = ip.st
     if not isinstance(tstr, str):
         return ip.lift(tstr)          # a concrete value (e.g. a default argument)
+    if tstr.startswith('PR(') and tstr.endswith(')'):
+        return presults_param(ip, name, tstr[3:-1])
+    if tstr.startswith('DictS(') and tstr.endswith(')'):
+        return struct_dict_param(ip, name, tstr[6:-1])
     T = parse_type(tstr)
     t0 = T[0]
     if t0 == 'str':
@@ -266,6 +270,63 @@ def symbolic_param(ip: Interp, name: str, tstr: str) -> SV:
     if t0 != 'any':
         st.fact(ip.conforms(v, T))
     return SV('val', v, T=T)
+
+
+def split_top(spec: str) -> List[str]:
+    parts, depth, cur = [], 0, ''
+    for ch in spec:
+        if ch in '[(':
+            depth += 1
+        elif ch in '])':
+            depth -= 1
+        if ch == ',' and depth == 0:
+            parts.append(cur)
+            cur = ''
+        else:
+            cur += ch
+    if cur.strip():
+        parts.append(cur)
+    return parts
+
+
+def struct_dict_param(ip: Interp, name: str, spec: str) -> SV:
+    """'note:NoteBlueprint, comment:str' -> a dict whose keys are among the listed ones, each value
+    (when present) of the given type: what an earlier parse action returns."""
+    st = ip.st
+    r = z3.Int(f'p_{name}')
+    st.fact(cls_of(r) == ip.reg.cid('dict'))
+    st.fact(r < st.alloc0)
+    ip.dict_wf(r)
+    keys = []
+    for p_ in split_top(spec):
+        k, t = p_.split(':', 1)
+        k, t = k.strip(), t.strip()
+        keys.append(k)
+        T = parse_type(t)
+        st.fact(z3.Implies(st.D_has[r][SVAL(k)], ip.conforms(st.D_val[r][SVAL(k)], T)))
+    kq = z3.String('k!sd')
+    st.fact(z3.ForAll([kq], z3.Implies(st.D_has[r][kq], z3.Or(*[kq == SVAL(k) for k in keys])),
+                      patterns=[st.D_has[r][kq]]))
+    return SV('ref', r, cls='dict', T=('dict', ('any',)))
+
+
+def presults_param(ip: Interp, name: str, spec: str) -> SV:
+    """'name:str, type:str, settings?:Dict[Any], 0:str' -> a symbolic ParseResults.  `x?` marks a
+    named result that may be absent (its presence is a free Boolean)."""
+    parts = split_top(spec)
+    named, pos = {}, {}
+    for p_ in parts:
+        k, t = p_.split(':', 1)
+        k, t = k.strip(), t.strip()
+        opt = k.endswith('?')
+        k = k.rstrip('?')
+        v = symbolic_param(ip, f'{name}.{k}', t)
+        if k.isdigit():
+            pos[int(k)] = v
+        else:
+            named[k] = (z3.Bool(f'p_{name}.has.{k}') if opt else True, v)
+    plist = [pos[i] for i in range(len(pos))]
+    return SV('presults', py=E.PR(named, plist))
 
 
 # --------------------------------------------------------------------------------------------
